@@ -308,7 +308,8 @@ func (c *canvas) DrawWithOpacity(opacity Fl, group backend.Canvas) {
 }
 
 func (c *canvas) Paint(op backend.PaintOp) {
-	if c.pathN == 0 {
+	if c.pathN == 0 && op != 0 {
+		// Paint(0) is the documented "end the path without painting" operation
 		c.doc.violate("empty-path:Paint(%s) with an empty current path", op)
 	}
 	c.pathN, c.hasPoint = 0, false
